@@ -38,7 +38,12 @@ func faultyReply(g *Gen, timeoutOK bool) Reply {
 		r.Size = g.n(100, 3000)
 	case 3:
 		r.Fault = "badenc"
-		r.Enc = pick(g, "lz4", "zst", "snz")
+		r.Enc = pick(g, "lz4", "zst", "snz", "gzip", "br")
+		if r.Enc == "gzip" || r.Enc == "br" {
+			// kept undecoded by pike: the corruption only surfaces when the entry is
+			// compressed for storage or transcoded for another client
+			r.Size = g.n(1100, 3000)
+		}
 	}
 	return r
 }
@@ -173,6 +178,13 @@ func servedOracle(prop string) func(o *Outcome) []Violation {
 				}
 				if o.Plan.explainsErrors() {
 					explained = true
+				}
+				// a corrupt gzip / br body is kept as it came (pike does not decode those on
+				// receipt): whoever needs it transcoded later inherits the origin's fault
+				for _, u := range o.Hist.Ups {
+					if u.Key == r.Key && u.Reply.Fault == "badenc" && (u.Reply.Enc == "gzip" || u.Reply.Enc == "br") && u.ArriveSeq < r.ReturnSeq {
+						explained = true
+					}
 				}
 				if !explained {
 					out = append(out, violation(prop, "unexplained-error", "client error without an injected fault",
